@@ -78,7 +78,7 @@ theorem C02_emit (e : Expr) (h : e.emittable) : pyParse (emit e) = some (toPy e)
     array, arrayrow) or one of the five address-layer emitters documented as out of scope; every other function is
     emitted by the generic branch as the plain call `name(args…)` that `C02_emit` speaks about.  A new `func_*`
     handler (a function whose emission changes shape) breaks this theorem. -/
-theorem C02_handlers : ∀ h ∈ Gen.funcHandlers, h ∈ emitHandlers ∨ h ∈ contextHandlers := by decide
+theorem C02_handlers : ∀ h ∈ Gen.funcHandlerNames, h ∈ emitHandlers ∨ h ∈ contextHandlers := by decide
 
 /-- what was wrong before the `fix:` commit: `=-2^2` is the tree (−2)^2, the code as pinned emitted `-2 ** 2`,
     which Python reads as −(2^2) -/
